@@ -24,7 +24,7 @@ def runs(tier, seed):
         return [("scripted", ["scripted"])] + \
                [("crash%d" % i, ["crash", "-seed", str(seed * 1000 + i), "-n", "60"]) for i in range(14)]
     return [("scripted", ["scripted"])] + \
-           [("crash%d" % i, ["crash", "-seed", str(seed * 100 + i), "-n", "5"]) for i in range(4)]
+           [("crash%d" % i, ["crash", "-seed", str(seed * 100 + i), "-n", "4"]) for i in range(4)]
 
 
 def search_runs(tier, seed):
